@@ -37,6 +37,7 @@ Definition chk_codec (c : case_codec) : Z :=
           match dec, reenc with
           | ROk v, ROk b =>
               (length v =? length (spec_widths sh p))%nat &&
+              (nan32_field p data (length (spec_widths sh p)) || ores_eqb zlist_eqb' mdec dec) &&
               (nan32_field p data (length (spec_widths sh p)) && match sh with Reals _ => true | _ => false end
                || bytes_eqb b (zbe 2 (Z.land wire 0xf8ff) ++ zbe 1 sz ++ firstn (Z.to_nat sz) data))
           | _, _ => false
@@ -73,10 +74,39 @@ Definition sig_fp (c : case_fp) : Z :=
 
 (* (width, float64 bits, FromFloat64 bytes, Float64 of those bytes) *)
 Definition case_fpenc := (Z * Z * list N * Z)%type.
+(* exact comparison of finite doubles as dyadic rationals m * 2^e *)
+Definition dyadic (x : f64) : option (Z * Z) :=
+  match x with
+  | B754_zero _ => Some (0, 0)
+  | B754_finite s m e _ => Some (cond_Zopp s (Zpos m), e)
+  | _ => None
+  end.
+Definition dy_scale (a : Z * Z) (emin : Z) : Z := fst a * 2 ^ (snd a - emin).
+(* |a - b| < 2^k *)
+Definition dy_close (a b : Z * Z) (k : Z) : bool :=
+  let emin := Z.min (Z.min (snd a) (snd b)) k in
+  Z.abs (dy_scale a emin - dy_scale b emin) <? 2 ^ (k - emin).
+(* lo <= a < hi for integers lo hi *)
+Definition dy_in (a : Z * Z) (lo hi : Z) : bool :=
+  let emin := Z.min (snd a) 0 in
+  (lo * 2 ^ (- emin) <=? dy_scale a emin) && (dy_scale a emin <? hi * 2 ^ (- emin)).
+
 Definition chk_fpenc (c : case_fpenc) : Z :=
   let '(w, fbits, b, back) := c in
   let x := f64_of_bits fbits in
   let mb := if w =? 4 then fp1220_from x else fp1632_from x in
   let mback := bits_of_f64 (if w =? 4 then fp1220_float64 mb else fp1632_float64 mb) in
-  code (bytes_eqb mb b && (mback =? back)) true.
+  let corr := bytes_eqb mb b && (mback =? back) in
+  (* the property: an in-range float encoded and decoded again moves by less than one unit of resolution,
+     and the decoded value is exactly the pattern's integer / 2^k *)
+  let k := if w =? 4 then 20 else 32 in
+  let lim := if w =? 4 then 2048 else 32768 in
+  let i := if w =? 4 then sint 32 (Z.of_N (be b)) else fp1632_int b in
+  let exact := bits_of_f64 (BinarySingleNaN.binary_normalize 53 1024 P53 P1024 mode_NE i (- k) false) =? back in
+  let oracle :=
+    match dyadic x, dyadic (f64_of_bits back) with
+    | Some a, Some r => if dy_in a (- lim) lim then dy_close a r (- k) && exact else true
+    | _, _ => true
+    end in
+  code corr oracle.
 Definition sig_fpenc (c : case_fpenc) : Z := let '(w, fbits, b, back) := c in w + (if fbits <? 2 ^ 63 then 0 else 16).
